@@ -19,8 +19,6 @@ def msOfFrames (fs : List Frame) : List Int :=
 def msVals (evs : List InEv) : List Int := evs.flatMap fun ev => msOfFrames ev.frames
 
 /-- ids returned by `AcceptStream` calls -/
-def streamsOfRets (rs : List (Nat × Ret)) : List Int :=
-  rs.filterMap fun r => match r.2 with | .stream id => some id | _ => none
 def acceptedIds (evs : List InEv) : List Int := evs.flatMap fun ev => streamsOfRets ev.rets
 
 theorem msVals_cons (e : InEv) (es : List InEv) : msVals (e :: es) = msOfFrames e.frames ++ msVals es := by
